@@ -226,11 +226,13 @@ namespace fastscapelib
             static constexpr std::uint8_t inflow = 1;
 
             /*
-             * Get the basin graph instance, create it if it doesn't exists.
+             * Get the basin graph instance, create it if it doesn't exists
+             * (or if the basin method of the operator has changed).
              */
             basin_graph_type& get_basin_graph(const graph_impl_type& graph_impl)
             {
-                if (!m_basin_graph_ptr)
+                if (!m_basin_graph_ptr
+                    || m_basin_graph_ptr->basin_method() != this->m_op_ptr->m_basin_method)
                 {
                     m_basin_graph_ptr = std::make_unique<basin_graph_type>(
                         graph_impl, this->m_op_ptr->m_basin_method);
